@@ -5,7 +5,8 @@ import random
 
 from .common import Budget, project_scratch, script_header
 
-VALS = [None, None, 0, 1, 2, 1.0, 2.5, "a", "b", None, [1, 2], [1, 2.0], True, False, {"n": 1}, {"n": 2, "m": "x"}, {"n": {"z": 1}}, 0.0, 0, 0.0, -1, -1.0, [0, 1], [0.0, 1]]
+VALS = [None, None, 0, 1, 2, 1.0, 2.5, "a", "b", None, [1, 2], [1, 2.0], True, False, {"n": 1}, {"n": 2, "m": "x"}, {"n": {"z": 1}}, 0.0, 0, 0.0, -1, -1.0, [0, 1], [0.0, 1],
+        {"n": {"p": 1, "q": 2}}, {"n": {"p": 1, "q": 3, "r": {"s": 0, "t": 1}}}, {"n": {"p": 2, "q": 2, "r": {"s": 0, "t": 2}}}]      # several leaves under one mapping, two and three levels down
 KEYS = ["a", "b", "c", "seed", "p", "ps", "speed"]       # incl. names made of the letters of the "sp." prefix
 
 
